@@ -1,3 +1,15 @@
+"""unit c10_module - `LuaModuleIndex` under contract.
+
+C10  remove(file_id): nothing refers to the removed file (file map, node lists, name table), memory released (no dead node, emptied ancestors dropped), invariant kept.
+C33  add_module_by_module_path / add_module_by_path register the file under the node reached from the root by the parts of its module path;
+     exact_find_module / find_module_by_normalized_path / find_module / find_module_node walk that path; removing the only file of a path makes it unresolvable.
+C09  new / clear establish the fresh state (module_wf of the one-node tree); re-registration = sweep as by remove, then grow by the path.
+C20  set_meta / is_meta_file exact; the `---@meta` tag slice of analyze_doc_tag_meta leaves the file marked meta on every branch.
+
+The invariant `module_wf` (units/c10_module/module_spec.rs) is derived from the writers: root exists without parent; every other node has an existing parent that lists it
+under exactly one name; child ids exist and point back; child names are pairwise different texts; no dead leaves; every node reaches the root by `parent` (no detached cycle);
+file map <-> node lists agree, a node lists a file once; the name table has no empty vector and only registered files; node ids are below id_counter.
+"""
 import re
 from vc import rules as R
 from vc import rustlex as L
@@ -5,6 +17,27 @@ from vc import rustlex as L
 SRC = 'crates/emmylua_code_analysis/src/'
 DB = SRC + 'db_index/'
 MOD = DB + 'module/'
+
+
+@R.rule('analyzer-db-module-index')
+def analyzer_db_module_index(text, **_):
+    """analyzer.db.get_module_index_mut() / analyzer.db.get_module_index() -> index: the statement slice of `analyze_doc_tag_meta` gets the module
+    index as an explicit `&mut LuaModuleIndex` parameter instead of reaching it through `analyzer.db` (`db: &mut DbIndex`). Both accessors are
+    one-line field projections; the rule re-reads them from the repository on every run and refuses (undecided) unless their bodies are exactly
+    `&mut self.modules_index` / `&self.modules_index` with `modules_index: LuaModuleIndex`."""
+    import os
+    from vc import extract as X
+    repo = os.environ.get('VERIF_REPO', '/repo')
+    for nm, want in (('get_module_index_mut', '&mut self.modules_index'), ('get_module_index', '&self.modules_index')):
+        w = X.find_item(repo, {'file': DB + 'mod.rs', 'kind': 'fn', 'impl': 'DbIndex', 'name': nm})
+        sh = X.fn_shape(w.raw)
+        body = ' '.join(w.raw[sh.body_open + 1:sh.body_close].split())
+        if body != want:
+            raise R.Undecided('analyzer-db-module-index: DbIndex::%s is no longer the plain field projection (%r)' % (nm, body))
+    dbs = X.find_item(repo, {'file': DB + 'mod.rs', 'kind': 'struct', 'name': 'DbIndex'})
+    if not re.search(r'\bmodules_index\s*:\s*LuaModuleIndex\s*,', dbs.raw):
+        raise R.Undecided('analyzer-db-module-index: DbIndex.modules_index is no longer a LuaModuleIndex')
+    return re.subn(r'\banalyzer\s*\.db\s*\.get_module_index(?:_mut)?\(\)', 'index', text)
 
 
 def st(file, name, attrs=None, **kw):
@@ -32,7 +65,7 @@ RM_ENSURES = '''
             forall|k: String| #[trigger] final(self).module_name_to_file_ids@.contains_key(k) ==>
                 !final(self).module_name_to_file_ids@[k]@.contains(file_id) && final(self).module_name_to_file_ids@[k]@.len() > 0 /*@C10.module.name-table.no-file-no-empty*/,
             module_wf(final(self)) /*@C10.module.wf-preserved*/,
-            config_same(old(self), final(self))'''
+            config_same(old(self), final(self)), final(self).id_counter == old(self).id_counter'''
 
 RM_FIRST = '''let ghost n0 = self.module_nodes@; let ghost fm0 = self.file_module_map@; let ghost nt0 = self.module_name_to_file_ids@;
         let ghost root = self.module_root_id; let ghost cnt0 = self.id_counter; let ghost pre = *self;'''
@@ -41,7 +74,7 @@ RM_LOOP = '''invariant_except_break
                 child_id is Some, n0.contains_key(child_id->0), !self.module_nodes@.contains_key(child_id->0), parent_id == n0[child_id->0].parent,
                 rm_inv(n0, self.module_nodes@, root, file_id, parent_id, child_id->0) /*@C10.module.ancestor-sweep.inv*/,
             invariant
-                keys_ok(), wf_parts(n0, root, fm0, nt0, cnt0), config_same(&pre, self), pre == *old(self),
+                keys_ok(), wf_parts(n0, root, fm0, nt0, cnt0), config_same(&pre, self), pre == *old(self), self.id_counter == cnt0,
                 n0 == pre.module_nodes@, fm0 == pre.file_module_map@, nt0 == pre.module_name_to_file_ids@, root == pre.module_root_id, cnt0 == pre.id_counter,
                 self.file_module_map@ == fm0.remove(file_id), names_swept(nt0, self.module_name_to_file_ids@, file_id),
             ensures rm_inv(n0, self.module_nodes@, root, file_id, None, root) /*@C10.module.ancestor-sweep.done*/,
@@ -81,8 +114,90 @@ RM_PROOF = [
     (r'\}\s*$', 'before', RM_FINAL),
 ]
 
+ADD_ENSURES = '''
+            r is Some /*@C33.module.add-succeeds*/,
+            module_wf(final(self)) /*@C33.module.add-wf-preserved*/,
+            // the file is registered under the node reached from the root by the parts of the path ...
+            final(self).file_module_map@.contains_key(file_id)
+                && resolve(final(self).module_nodes@, final(self).module_root_id, dot_parts(module_path@)) == Some(final(self).file_module_map@[file_id].module_id) /*@C33.module.add-registers-path*/,
+            // ... and that node lists it, once
+            lists(final(self).module_nodes@, final(self).file_module_map@[file_id].module_id, file_id)
+                && final(self).module_nodes@[final(self).file_module_map@[file_id].module_id].file_ids@.no_duplicates() /*@C33.module.add-lists-file-once*/,
+            // every other file's entry is untouched
+            final(self).file_module_map@ == old(self).file_module_map@.insert(file_id, final(self).file_module_map@[file_id]) /*@C33.module.add-frame-file-map*/,
+            // the new entry is a fresh ModuleInfo
+            info_fresh(final(self).file_module_map@[file_id], file_id, workspace_id, dot_parts(module_path@)) /*@C33.module.add-fresh-info*/,
+            !final(self).file_module_map@[file_id].is_meta /*@C20.meta.fresh-registration-not-meta*/,
+            // the tree: the previous registration of the file (if any) swept as by `remove`, then grown by the nodes of the path
+            exists|m: Nodes| #[trigger] tree_added(m, final(self).module_nodes@, final(self).file_module_map@[file_id].module_id, file_id)
+                && (if old(self).file_module_map@.contains_key(file_id) { tree_swept(old(self).module_nodes@, m, old(self).module_root_id, file_id) } else { m == old(self).module_nodes@ }) /*@C09.module.readd-sweeps-then-grows*/,
+            exists|t: NameTable| #[trigger] names_added(t, final(self).module_name_to_file_ids@, old(self).fuzzy_search, dot_parts(module_path@).last(), file_id)
+                && (if old(self).file_module_map@.contains_key(file_id) { names_swept(old(self).module_name_to_file_ids@, t, file_id) } else { t == old(self).module_name_to_file_ids@ }) /*@C33.module.add-name-table*/,
+            config_same(old(self), final(self)), old(self).id_counter <= final(self).id_counter'''
+
+ADD_FIRST = '''let ghost pre = *self; let ghost root = self.module_root_id;'''
+
+ADD_LOOP = '''invariant
+                keys_ok(), config_same(&pre, self), root == pre.module_root_id,
+                self.file_module_map@ == fm1, self.module_name_to_file_ids@ == nt1, cnt1 as int + module_parts@.len() <= u32::MAX,
+                add_inv(n1, self.module_nodes@, root, parent_node_id, texts(module_parts@).take(it.index@ as int), fm1, cnt1, self.id_counter) /*@C33.module.add-walk.inv*/,'''
+
+ADD_PROOF = [
+    (r'let module_parts: Vec<&str> =', 'before', '''let ghost n1 = self.module_nodes@; let ghost fm1 = self.file_module_map@; let ghost nt1 = self.module_name_to_file_ids@;
+        let ghost cnt1 = self.id_counter;'''),
+    (r'let child_id = \{', 'before', '''let ghost m_in = self.module_nodes@; let ghost cnt_in = self.id_counter; let ghost cur = parent_node_id;
+            let ghost pre_parts = texts(module_parts@).take(it.index@ as int); let ghost t = part@;
+            proof { assert(*part == module_parts@[it.index@ as int]); lemma_texts_distinct(m_in, root, Some(cur), cur); }'''),
+    (r'if let std::collections::hash_map::Entry::Vacant\(e\)', 'before', 'let ghost m1 = self.module_nodes@;'),
+    (r'\bparent_node_id = \w+;', 'before', '''proof {
+                assert(texts(module_parts@).take(it.index@ as int + 1) =~= pre_parts.push(t));
+                if exists|k: String| #[trigger] has_child(m_in, cur, k) && k@ == t {
+                    let k = choose|k: String| #[trigger] has_child(m_in, cur, k) && k@ == t;
+                    assert(m_in[cur].children@.contains_key(k));
+                    assert(child_id == child(m_in, cur, k));
+                    assert(m1 =~= m_in);
+                    assert(self.module_nodes@ =~= m_in);
+                    lemma_add_step_existing(n1, m_in, root, cur, pre_parts, fm1, cnt1, cnt_in, k); /*@C33.module.add-walk.existing-child*/
+                } else {
+                    assert(forall|s: String| #[trigger] m_in[cur].children@.contains_key(s) ==> has_child(m_in, cur, s));
+                    assert(m1.contains_key(cur));
+                    assert(m1 == m_in.insert(cur, m1[cur]));
+                    assert(exists|k: String| #[trigger] m_in[cur].children@.insert(k, child_id) == m1[cur].children@ && k@ == t);
+                    let key = choose|k: String| #[trigger] m_in[cur].children@.insert(k, child_id) == m1[cur].children@ && k@ == t;
+                    assert(!m1.contains_key(child_id));
+                    lemma_add_step_new(n1, m_in, self.module_nodes@, root, cur, pre_parts, fm1, cnt1, cnt_in, key, child_id, m1[cur], self.module_nodes@[child_id]); /*@C33.module.add-walk.new-child*/
+                }
+            }'''),
+    (r'let node = self\.module_nodes\.get_mut\(&parent_node_id\)\?;', 'before', '''let ghost m_end = self.module_nodes@; let ghost cnt_end = self.id_counter;
+        proof { assert(texts(module_parts@).take(module_parts@.len() as int) =~= texts(module_parts@)); }'''),
+    (r'if self\.fuzzy_search \{', 'before', 'let ghost mname = module_name;'),
+    (r'Some\(\(\)\)\s*\}\s*$', 'before', '''proof {
+            let info = self.file_module_map@[file_id];
+            lemma_add_final(n1, m_end, self.module_nodes@, root, parent_node_id, texts(module_parts@), fm1, cnt1, cnt_end, file_id, self.module_nodes@[parent_node_id], info); /*@C33.module.add-final*/
+            if self.fuzzy_search {
+                let n = self.module_name_to_file_ids@;
+                assert(n.contains_key(mname) && mname@ == texts(module_parts@).last() && n =~= nt1.insert(mname, n[mname])
+                    && n[mname]@ == (if nt1.contains_key(mname) { nt1[mname]@ } else { Seq::<FileId>::empty() }).push(file_id));
+            }
+            assert(names_added(nt1, self.module_name_to_file_ids@, self.fuzzy_search, texts(module_parts@).last(), file_id));
+            lemma_names_add(nt1, self.module_name_to_file_ids@, fm1, self.fuzzy_search, texts(module_parts@).last(), file_id, info);
+            assert(self.file_module_map@ =~= pre.file_module_map@.insert(file_id, info));
+        }'''),
+]
+
 UNIT = {
     'extra_rules': [
+        ('opt-string-as-deref', r'(\w+)\.as_deref\(\)', r'vx_opt_string_as_str(&\1)',
+         'O.as_deref() (O: Option<String>) -> vx_opt_string_as_str(&O): the helper\'s body is that very call; Option::as_deref "converts from &Option<T> to '
+         'Option<&T::Target> ... coercing the contents via Deref", and String derefs to the str with the same text'),
+        ('str-seps-to-dots', r'''(\w+)\.replace\(\['\\\\', '/'\], "\."\)''', r'vx_seps_to_dots(&\1)',
+         'S.replace([\'\\\\\', \'/\'], ".") (S: &str or String) -> vx_seps_to_dots(&S): the helper\'s body is that very call; its result is an uninterpreted function of the text'),
+        ('ref-str-to-string', r'\b(part|name)\.to_string\(\)', r'vx_ref_str_to_string(\1)',
+         'P.to_string() with P: &&str -> vx_ref_str_to_string(P): the helper\'s body is that very call; vstd knows `str::to_string` (result has the same text) '
+         'but not the instance for `&str` (Display for &T forwards to T, std doc), which is what method resolution picks for a `&&str` receiver'),
+        ('str-key-get-part', r'(\w+)\.children\.get\(\*part\)', r'vx_get_str_key(&\1.children, *part)',
+         'M.get(S) with M: HashMap<String, V>, S: &str -> vx_get_str_key(&M, S): the helper\'s body is that very call; it only attaches the std contract of '
+         'HashMap::get through String: Borrow<str> (found iff a key with that text is present), which vstd does not model'),
         ('str-split-dot-collect', r"(\w+)\.split\('\.'\)\.collect\(\)", r'vx_split_dot(&\1)',
          "S.split('.').collect() (collected into a Vec<&str>, S: String or &str) -> vx_split_dot(&S): the helper's body is that very call chain; it only attaches "
          "the std-doc facts used here (str::split yields the substrings between the separators: one more item than there are separators, hence at least one; "
@@ -105,8 +220,10 @@ UNIT = {
         'FileId': {'src': {'file': SRC + 'vfs/file_id.rs', 'kind': 'struct', 'name': 'FileId', 'drop_attrs': False}, 'attrs': '#[derive(Structural)]'},
         'ModuleNodeId': {'src': {'file': MOD + 'module_node.rs', 'kind': 'struct', 'name': 'ModuleNodeId', 'drop_attrs': False}, 'attrs': '#[derive(Structural)]'},
         'WorkspaceId': {'src': {'file': MOD + 'workspace.rs', 'kind': 'struct', 'name': 'WorkspaceId', 'drop_attrs': False}, 'attrs': '#[derive(Structural)]'},
-        'ModuleNode': st(MOD + 'module_node.rs', 'ModuleNode'),
-        'ModuleVisibility': {'src': {'file': MOD + 'module_info.rs', 'kind': 'enum', 'name': 'ModuleVisibility', 'drop_attrs': False}},
+        'ModuleNode': {'src': {'file': MOD + 'module_node.rs', 'kind': 'struct', 'name': 'ModuleNode', 'drop_attrs': False}},
+        'ModuleVisibility': {'src': {'file': MOD + 'module_info.rs', 'kind': 'enum', 'name': 'ModuleVisibility', 'drop_attrs': False}, 'attrs': '#[derive(Structural)]'},
+        'ModuleVisibility::is_hidden': {'src': {'file': MOD + 'module_info.rs', 'kind': 'fn', 'impl': 'ModuleVisibility', 'name': 'is_hidden'},
+                                        'ret': 'r', 'ensures': 'r == (self == ModuleVisibility::Hide)'},
         'ModuleInfo': st(MOD + 'module_info.rs', 'ModuleInfo'),
         'LuaModuleIndex': st(MOD + 'mod.rs', 'LuaModuleIndex'),
         'LuaModuleIndex::remove': {
@@ -117,10 +234,209 @@ UNIT = {
             'ensures': RM_ENSURES, 'body_first': RM_FIRST, 'loops': {0: RM_LOOP}, 'proof': RM_PROOF},
         'LuaModuleIndex::add_module_by_module_path': {
             'src': {'file': MOD + 'mod.rs', 'kind': 'fn', 'impl': 'LuaModuleIndex', 'name': 'add_module_by_module_path'},
-            'rules': ['hashbrown-std', 'str-split-dot-collect', 'slice-join-dot'],
-            'requires': 'keys_ok(), module_wf(old(self))'},
+            'rules': ['hashbrown-std', 'str-split-dot-collect', 'slice-join-dot', 'str-key-get-part', ('ref-str-to-string', {'count': 2})],
+            'attrs': '#[verifier::spinoff_prover]', 'ret': 'r',
+            'requires': 'keys_ok(), module_wf(old(self)), old(self).id_counter as int + module_path@.len() + 1 <= u32::MAX',
+            'ensures': ADD_ENSURES, 'body_first': ADD_FIRST, 'loops': {0: ADD_LOOP}, 'iter_names': {0: 'it'}, 'proof': ADD_PROOF},
+        'LuaModuleIndex::clear': {
+            'src': {'file': MOD + 'mod.rs', 'kind': 'fn', 'impl': 'LuaIndex for LuaModuleIndex', 'name': 'clear'},
+            'requires': 'keys_ok(), old(self).module_root_id.id < old(self).id_counter',
+            'ensures': '''
+            // the fresh state: only the root node (no parent, no child, no file), no registered file, no name entry
+            final(self).module_nodes@ == Map::<ModuleNodeId, ModuleNode>::empty().insert(old(self).module_root_id, final(self).module_nodes@[old(self).module_root_id])
+                && root_node_fresh(final(self).module_nodes@[old(self).module_root_id]) /*@C09.module.clear-only-root-node*/,
+            final(self).file_module_map@ == Map::<FileId, ModuleInfo>::empty() /*@C09.module.clear-file-map*/,
+            final(self).module_name_to_file_ids@ == Map::<String, Vec<FileId>>::empty() /*@C09.module.clear-name-table*/,
+            module_wf(final(self)) /*@C09.module.clear-establishes-wf*/,
+            config_same(old(self), final(self)), final(self).id_counter == old(self).id_counter''',
+            'proof': [(r'\}\s*$', 'before', 'proof { assert(anc(self.module_nodes@, self.module_root_id, 0) == Some(self.module_root_id)); }')]},
+        'LuaModuleIndex::new': {
+            'src': {'file': MOD + 'mod.rs', 'kind': 'fn', 'impl': 'LuaModuleIndex', 'name': 'new'},
+            'ret': 'r', 'requires': 'keys_ok()',
+            'ensures': '''
+            r.module_nodes@ == Map::<ModuleNodeId, ModuleNode>::empty().insert(r.module_root_id, r.module_nodes@[r.module_root_id])
+                && root_node_fresh(r.module_nodes@[r.module_root_id]) /*@C09.module.new-only-root-node*/,
+            r.file_module_map@ == Map::<FileId, ModuleInfo>::empty(), r.module_name_to_file_ids@ == Map::<String, Vec<FileId>>::empty(),
+            module_wf(&r) /*@C09.module.new-establishes-wf*/''',
+            'proof': [(r'\n\s*index\s*\}\s*$', 'before', 'proof { assert(anc(index.module_nodes@, index.module_root_id, 0) == Some(index.module_root_id)); }')]},
+        'ModuleInfo::set_visibility': {
+            'src': {'file': MOD + 'module_info.rs', 'kind': 'fn', 'impl': 'ModuleInfo', 'name': 'set_visibility'},
+            'ensures': '*final(self) == (ModuleInfo { visible: visibility, ..*old(self) })'},
+        'LuaModuleIndex::set_meta': {
+            'src': {'file': MOD + 'mod.rs', 'kind': 'fn', 'impl': 'LuaModuleIndex', 'name': 'set_meta'},
+            'requires': 'keys_ok()',
+            'ensures': '''
+            // only the `is_meta` flag of the file's ModuleInfo changes (to true); a file without entry: nothing changes
+            final(self).file_module_map@ == (if old(self).file_module_map@.contains_key(file_id) {
+                    old(self).file_module_map@.insert(file_id, ModuleInfo { is_meta: true, ..old(self).file_module_map@[file_id] })
+                } else { old(self).file_module_map@ }) /*@C20.meta.set-meta-exact*/,
+            rest_same(old(self), final(self)) /*@C20.meta.set-meta-frame*/'''},
+        'LuaModuleIndex::is_meta_file': {
+            'src': {'file': MOD + 'mod.rs', 'kind': 'fn', 'impl': 'LuaModuleIndex', 'name': 'is_meta_file'},
+            'ret': 'r', 'requires': 'keys_ok()',
+            'ensures': 'r == is_meta(self, *file_id) /*@C20.meta.is-meta-file-exact*/'},
+        'LuaModuleIndex::set_module_visibility': {
+            'src': {'file': MOD + 'mod.rs', 'kind': 'fn', 'impl': 'LuaModuleIndex', 'name': 'set_module_visibility'},
+            'requires': 'keys_ok()',
+            'ensures': '''
+            final(self).file_module_map@ == (if old(self).file_module_map@.contains_key(file_id) {
+                    old(self).file_module_map@.insert(file_id, ModuleInfo { visible: visible, ..old(self).file_module_map@[file_id] })
+                } else { old(self).file_module_map@ }),
+            rest_same(old(self), final(self))'''},
+        'LuaModuleIndex::get_module': {
+            'src': {'file': MOD + 'mod.rs', 'kind': 'fn', 'impl': 'LuaModuleIndex', 'name': 'get_module'},
+            'ret': 'r', 'requires': 'keys_ok()',
+            'ensures': '''match r { Some(i) => self.file_module_map@.contains_key(file_id) && *i == self.file_module_map@[file_id],
+                                    None => !self.file_module_map@.contains_key(file_id) }'''},
+        'LuaModuleIndex::add_module_by_path': {
+            'src': {'file': MOD + 'mod.rs', 'kind': 'fn', 'impl': 'LuaModuleIndex', 'name': 'add_module_by_path'},
+            'rules': ['str-seps-to-dots'], 'ret': 'r', 'attrs': '#[verifier::spinoff_prover]',
+            'requires': '''keys_ok(), module_wf(old(self)),
+            path_module(old(self), path@) is Some ==> old(self).id_counter as int + (path_module(old(self), path@)->0).0.len() + 1 <= u32::MAX''',
+            'ensures': '''
+            module_wf(final(self)) /*@C33.module.add-by-path-wf-preserved*/,
+            config_same(old(self), final(self)),
+            match path_module(old(self), path@) {
+                // the path is under no workspace root / matches no pattern: the file ends up unregistered (a previous registration is removed)
+                None => r is None && final(self).file_module_map@ == old(self).file_module_map@.remove(file_id)
+                    && (forall|x: ModuleNodeId| #[trigger] final(self).module_nodes@.contains_key(x) ==> !final(self).module_nodes@[x].file_ids@.contains(file_id)),
+                // otherwise it is registered under the node reached from the root by the parts of its module path
+                Some((mp, ws)) => r == Some(ws) && final(self).file_module_map@.contains_key(file_id)
+                    && resolve(final(self).module_nodes@, final(self).module_root_id, dot_parts(mp)) == Some(final(self).file_module_map@[file_id].module_id)
+                    && lists(final(self).module_nodes@, final(self).file_module_map@[file_id].module_id, file_id)
+                    && info_fresh(final(self).file_module_map@[file_id], file_id, ws, dot_parts(mp))
+                    && final(self).file_module_map@ == old(self).file_module_map@.insert(file_id, final(self).file_module_map@[file_id]),
+            } /*@C33.module.add-by-path-registers-path*/''',
+            'proof': [
+                (r'let \(module_path, workspace_id\) = self\.extract_module_path\(path\)\?;', 'before', '''proof {
+            if !old(self).file_module_map@.contains_key(file_id) {
+                assert(self.file_module_map@ =~= old(self).file_module_map@.remove(file_id));
+                assert forall|x: ModuleNodeId| #[trigger] self.module_nodes@.contains_key(x) implies !self.module_nodes@[x].file_ids@.contains(file_id) by {
+                    if self.module_nodes@[x].file_ids@.contains(file_id) { assert(lists(self.module_nodes@, x, file_id)); }
+                }
+            }
+        }
+        let ghost fm1 = self.file_module_map@;'''),
+                (r'Some\(workspace_id\)\s*\}\s*$', 'before', '''proof {
+            assert(self.file_module_map@ =~= old(self).file_module_map@.insert(file_id, self.file_module_map@[file_id]));
+        }'''),
+            ]},
+        'LuaModuleIndex::exact_find_module': {
+            'src': {'file': MOD + 'mod.rs', 'kind': 'fn', 'impl': 'LuaModuleIndex', 'name': 'exact_find_module'},
+            'rules': ['str-key-get-part'], 'ret': 'r', 'attrs': '#[verifier::spinoff_prover]',
+            'requires': 'keys_ok(), module_wf(self)',
+            'ensures': '''
+            // the answer is the ModuleInfo of the file the path resolves to: walk the parts from the root, then pick among the node's files
+            found(self, r, texts(module_parts@)) /*@C33.module.find-resolves-path*/''',
+            'iter_names': {0: 'it', 1: 'it2'},
+            'loops': {0: '''invariant keys_ok(), module_wf(self), self.module_nodes@.contains_key(parent_node_id),
+                    resolve(self.module_nodes@, self.module_root_id, texts(module_parts@).take(it.index@ as int)) == Some(parent_node_id) /*@C33.module.find-walk.inv*/,''',
+                      1: '''invariant keys_ok(), module_wf(self), fs == node.file_ids@, self.module_nodes@.contains_key(parent_node_id), *node == self.module_nodes@[parent_node_id],
+                    prefer_non_hidden == (fs.len() > 1),
+                    resolve(self.module_nodes@, self.module_root_id, texts(module_parts@)) == Some(parent_node_id),
+                    prefer_non_hidden ==> first_shown(fs, self.file_module_map@, 0) == first_shown(fs, self.file_module_map@, it2.index@ as int),
+                    it2.index@ > 0 ==> prefer_non_hidden,
+                    first_is(first_module, it2.index@ as int, self.file_module_map@, fs) /*@C33.module.find-pick.inv*/,'''},
+            'proof': [
+                (r'let parent_node = self\.module_nodes\.get\(&parent_node_id\)\?;', 'before', '''let ghost i = it.index@ as int;
+            proof {
+                assert(*part == module_parts@[i]);
+                lemma_resolve_step(self.module_nodes@, self.module_root_id, texts(module_parts@), i);
+                lemma_texts_distinct(self.module_nodes@, self.module_root_id, None, parent_node_id);
+            }'''),
+                (r'let child_id = \{', 'before', '''proof {
+                if child_by_text(parent_node.children@, part@) is None {
+                    lemma_resolve_prefix_none(self.module_nodes@, self.module_root_id, texts(module_parts@), i + 1);
+                } else {
+                    let k = choose|k: String| #[trigger] parent_node.children@.contains_key(k) && k@ == part@;
+                    assert(has_child(self.module_nodes@, parent_node_id, k));
+                }
+            }'''),
+                (r'parent_node_id = child_id;', 'before', '''proof {
+                let k = choose|k: String| #[trigger] parent_node.children@.contains_key(k) && k@ == part@;
+                assert(has_child(self.module_nodes@, parent_node_id, k));
+                lemma_child_by_text_hit(parent_node.children@, k);
+            }'''),
+                (r'let node = self\.module_nodes\.get\(&parent_node_id\)\?;', 'before',
+                 'proof { assert(texts(module_parts@).take(module_parts@.len() as int) =~= texts(module_parts@)); }'),
+                (r'let mut first_module = None;', 'after', 'let ghost fs = node.file_ids@;'),
+                (r'let module_info = self\.file_module_map\.get\(file_id\)\?;', 'before', '''let ghost j = it2.index@ as int;
+            proof { assert(*file_id == fs[j]); assert(lists(self.module_nodes@, parent_node_id, fs[j])); }'''),
+            ]},
+        'LuaModuleIndex::find_module_by_normalized_path': {
+            'src': {'file': MOD + 'mod.rs', 'kind': 'fn', 'impl': 'LuaModuleIndex', 'name': 'find_module_by_normalized_path'},
+            'rules': ['str-split-dot-collect'], 'ret': 'r',
+            'requires': 'keys_ok(), module_wf(self)',
+            'ensures': '''found(self, r, dot_parts(module_path@)) /*@C33.module.find-normalized-resolves-path*/'''},
+        'LuaModuleIndex::find_module': {
+            'src': {'file': MOD + 'mod.rs', 'kind': 'fn', 'impl': 'LuaModuleIndex', 'name': 'find_module'},
+            'rules': ['str-seps-to-dots', ('str-split-dot-collect', {'count': 2}), ('opt-string-as-deref', {'count': 2})], 'ret': 'r',
+            'requires': 'keys_ok(), module_wf(self)',
+            'ensures': '''
+            // an exact hit of the (separator-normalized) path wins over moduleMap rewriting and fuzzy search
+            find_spec(self.module_nodes@, self.module_root_id, self.file_module_map@, dot_parts(seps_to_dots(module_path@))) is Some
+                ==> found(self, r, dot_parts(seps_to_dots(module_path@))) /*@C33.module.find-module-exact-hit-first*/,
+            // strict require paths (fuzzy search off): the answer is the exact resolution of the path, or else of its moduleMap rewriting; nothing else
+            !self.fuzzy_search ==> found(self, r, dot_parts(seps_to_dots(module_path@)))
+                || (find_spec(self.module_nodes@, self.module_root_id, self.file_module_map@, dot_parts(seps_to_dots(module_path@))) is None
+                    && self.module_replace_vec@.len() > 0
+                    && found(self, r, dot_parts(module_map_rewrite(self.module_replace_vec, seps_to_dots(module_path@))))) /*@C33.module.find-module-strict-is-exact*/'''},
+        'LuaModuleIndex::find_module_node': {
+            'src': {'file': MOD + 'mod.rs', 'kind': 'fn', 'impl': 'LuaModuleIndex', 'name': 'find_module_node'},
+            'rules': ['str-seps-to-dots', 'str-split-dot-collect', 'str-key-get-part'], 'ret': 'r', 'attrs': '#[verifier::spinoff_prover]\n#[verifier::loop_isolation(false)]',
+            'requires': 'keys_ok(), module_wf(self)',
+            'ensures': '''
+            // the node reached from the root by the parts of the path (the root itself for the empty path)
+            match r {
+                Some(nd) => node_of_path(self, module_path@) is Some && self.module_nodes@.contains_key(node_of_path(self, module_path@)->0)
+                    && *nd == self.module_nodes@[node_of_path(self, module_path@)->0],
+                None => node_of_path(self, module_path@) is None,
+            } /*@C33.module.find-node-resolves-path*/''',
+            'iter_names': {0: 'it'}, 'body_first': 'let ghost path0 = module_path@;',
+            'loops': {0: '''invariant keys_ok(), module_wf(self), self.module_nodes@.contains_key(parent_node_id),
+                    path0.len() > 0, texts(module_parts@) == dot_parts(seps_to_dots(path0)),
+                    resolve(self.module_nodes@, self.module_root_id, texts(module_parts@).take(it.index@ as int)) == Some(parent_node_id) /*@C33.module.find-node-walk.inv*/,'''},
+            'proof': [
+                (r'let parent_node = self\.module_nodes\.get\(&parent_node_id\)\?;', 'before', '''let ghost i = it.index@ as int;
+            proof {
+                assert(*part == module_parts@[i]);
+                lemma_resolve_step(self.module_nodes@, self.module_root_id, texts(module_parts@), i);
+                lemma_texts_distinct(self.module_nodes@, self.module_root_id, None, parent_node_id);
+            }'''),
+                (r'let child_id = vx_get_str_key', 'before', '''proof {
+                if child_by_text(parent_node.children@, part@) is None {
+                    lemma_resolve_prefix_none(self.module_nodes@, self.module_root_id, texts(module_parts@), i + 1);
+                } else {
+                    let k = choose|k: String| #[trigger] parent_node.children@.contains_key(k) && k@ == part@;
+                    assert(has_child(self.module_nodes@, parent_node_id, k));
+                }
+            }'''),
+                (r'parent_node_id = \*child_id;', 'before', '''proof {
+                let k = choose|k: String| #[trigger] parent_node.children@.contains_key(k) && k@ == part@;
+                assert(has_child(self.module_nodes@, parent_node_id, k));
+                lemma_child_by_text_hit(parent_node.children@, k);
+            }'''),
+                (r'self\.module_nodes\.get\(&parent_node_id\)\s*\}\s*$', 'before',
+                 'proof { assert(texts(module_parts@).take(module_parts@.len() as int) =~= texts(module_parts@)); }'),
+            ]},
+        'analyze_doc_tag_meta::mark': {
+            'src': {'kind': 'slice', 'name': 'mark',
+                    'in': {'file': SRC + 'compilation/analyzer/decl/docs.rs', 'kind': 'fn', 'name': 'analyze_doc_tag_meta'},
+                    'from': r'analyzer\.db\.get_module_index_mut\(\)\.set_meta\(file_id\);\s*analyzer\.is_meta = true;',
+                    'to': r'analyzer\.db\.get_module_index_mut\(\)\.set_meta\(file_id\);\s*\}\s*\}',
+                    'head': 'pub fn mark(index: &mut LuaModuleIndex, analyzer: &mut DeclAnalyzerMetaSink, tag: &LuaDocTagMeta, file_id: FileId) -> Option<()>',
+                    'tail': 'Some(())'},
+            'rules': ['analyzer-db-module-index'],
+            'ret': 'r',
+            'requires': '''keys_ok(), module_wf(old(index)), old(index).file_module_map@.contains_key(file_id),
+            tag.name_token() is Some ==> old(index).id_counter as int + tag.name_token()->0.text().len() + 1 <= u32::MAX''',
+            'ensures': '''
+            // every path that reaches the end of the slice leaves the file marked as a meta file
+            r is Some ==> is_meta(final(index), file_id) /*@C20.meta.tag-marks-file-meta*/,
+            r is Some /*@C20.meta.tag-slice-completes*/,
+            module_wf(final(index))'''},
     },
-    'allow': [r'external_body', r'uninterp spec fn (dot_parts|join_dot)',
+    'allow': [r'external_body', r'assume_specification\[ <ModuleNode as Default>::default \]', r'uninterp spec fn (dot_parts|join_dot|name_token|text|seps_to_dots|module_map_rewrite|spec_extract_module_path)',
               r"assume_specification<'a, K, V: Default>\[ Entry::<'a, K, V>::or_default \]",
               r'assume_specification<\'a, K: Eq \+ Hash \+ Borrow<Q>, V, S: BuildHasher, A: Allocator, Q: Hash \+ Eq \+ \?Sized>\[ HashMap::<K, V, S, A>::get_mut \]',
               r'assume_specification<T, A: Allocator, F: FnMut\(&T\) -> bool>\[ Vec::<T, A>::retain \]',
@@ -128,6 +444,9 @@ UNIT = {
     'mutants': [
         {'name': 'name-table-sweep-dropped', 'item': 'LuaModuleIndex::remove', 'pattern': r'(self\.module_name_to_file_ids\.retain\(.*?\n        \}\);)',
          'repl': r'if false { \1 }', 'expect': r'C10\.module\.name-table'},
+        {'name': 'name-table-sweep-after-early-return', 'item': 'LuaModuleIndex::remove',
+         'pattern': r'(self\.module_name_to_file_ids\.retain\(.*?\n        \}\);)(\s*)(if parent_id\.is_none\(\) \|\| child_id\.is_none\(\) \{\s*return;\s*\})',
+         'repl': r'\3\2\1', 'expect': r'C10\.module\.name-table'},
         {'name': 'emptied-leaf-kept', 'item': 'LuaModuleIndex::remove', 'pattern': r'self\.module_nodes\.remove\(&module_id\);', 'repl': '',
          'expect': r'C10\.module\.no-dead-node'},
         {'name': 'file-ids-retain-negated', 'item': 'LuaModuleIndex::remove', 'pattern': r'node\.file_ids\.retain\(\|id\| \*id != file_id\)', 'repl': 'node.file_ids.retain(|id| *id == file_id)',
@@ -141,10 +460,85 @@ UNIT = {
          'expect': r'C10\.module\.name-table\.drop-empty'},
         {'name': 'ancestor-child-entry-kept', 'item': 'LuaModuleIndex::remove', 'pattern': r'\*node_child_idid != child_module_id', 'repl': 'true',
          'expect': r'C10\.module\.children-retain-predicate'},
+        {'name': 'meta-tag-second-set-meta-dropped', 'item': 'analyze_doc_tag_meta::mark',
+         'pattern': r'(add_module_by_module_path\(file_id, text\.to_string\(\), workspace_id\);\s*)analyzer\.db\.get_module_index_mut\(\)\.set_meta\(file_id\);', 'repl': r'\1',
+         'expect': r'C20\.meta\.tag-marks-file-meta'},
+        {'name': 'meta-tag-first-set-meta-dropped', 'item': 'analyze_doc_tag_meta::mark',
+         'pattern': r'analyzer\.db\.get_module_index_mut\(\)\.set_meta\(file_id\);(\s*analyzer\.is_meta = true;)', 'repl': r'\1',
+         'expect': r'C20\.meta\.tag-marks-file-meta'},
+        {'name': 'set-meta-clears-flag', 'item': 'LuaModuleIndex::set_meta', 'pattern': r'module_info\.is_meta = true;', 'repl': 'module_info.is_meta = false;',
+         'expect': r'C20\.meta\.set-meta-exact'},
+        {'name': 'is-meta-file-always-true', 'item': 'LuaModuleIndex::is_meta_file', 'pattern': r'return module_info\.is_meta;', 'repl': 'return true;',
+         'expect': r'C20\.meta\.is-meta-file-exact'},
+        {'name': 'add-registers-as-meta', 'item': 'LuaModuleIndex::add_module_by_module_path', 'pattern': r'is_meta: false,', 'repl': 'is_meta: true,',
+         'expect': r'C20\.meta\.fresh-registration-not-meta'},
+        {'name': 'add-file-not-pushed', 'item': 'LuaModuleIndex::add_module_by_module_path', 'pattern': r'node\.file_ids\.push\(file_id\);', 'repl': '',
+         'expect': r'C33\.module\.add-final'},
+        {'name': 'add-registers-root', 'item': 'LuaModuleIndex::add_module_by_module_path', 'pattern': r'module_id: parent_node_id,', 'repl': 'module_id: self.module_root_id,',
+         'expect': r'C33\.module\.add-final'},
+        {'name': 'add-new-node-without-parent', 'item': 'LuaModuleIndex::add_module_by_module_path', 'pattern': r'parent: Some\(parent_node_id\),', 'repl': 'parent: None,',
+         'expect': r'C33\.module\.add-walk\.new-child'},
+        {'name': 'add-id-counter-not-advanced', 'item': 'LuaModuleIndex::add_module_by_module_path', 'pattern': r'self\.id_counter \+= 1;', 'repl': '',
+         'expect': r'C33\.module\.add-walk'},
+        {'name': 'add-skips-removal-of-old-registration', 'item': 'LuaModuleIndex::add_module_by_module_path', 'pattern': r'if self\.file_module_map\.contains_key\(&file_id\) \{', 'repl': 'if false {',
+         'expect': r'C33\.module\.'},
+        {'name': 'add-walk-does-not-descend', 'item': 'LuaModuleIndex::add_module_by_module_path', 'pattern': r'parent_node_id = child_id;', 'repl': 'parent_node_id = parent_node_id;',
+         'expect': r'C33\.module\.'},
+        {'name': 'clear-forgets-root', 'item': 'LuaModuleIndex::clear', 'pattern': r'self\.module_nodes\.insert\(self\.module_root_id, root_node\);', 'repl': '',
+         'expect': r'C09\.module\.clear'},
+        {'name': 'clear-keeps-file-map', 'item': 'LuaModuleIndex::clear', 'pattern': r'self\.file_module_map\.clear\(\);', 'repl': '',
+         'expect': r'C09\.module\.clear'},
         {'name': 'root-check-dropped', 'item': 'LuaModuleIndex::remove', 'pattern': r'if id == self\.module_root_id \{', 'repl': 'if false {',
          'expect': r'C10\.module\.'},
     ],
-    'min_obligations': 1,
-    'trusted': [],
-    'not_covered': [],
+    'min_obligations': 55,
+    'trusted': [
+        'hashbrown::{HashMap, hash_map::Entry} -> std::collections (rule hashbrown-std for the one qualified path; same API subset and documented behaviour for '
+        'get/get_mut/insert/remove/retain/entry/or_default/contains_key/is_empty/clear; iteration order never relied on)',
+        'Vec::retain, HashMap::retain, HashMap::get_mut: std-doc contracts as assume_specification (same text as unit c10_remove2)',
+        'Entry::or_default: std-doc contract as assume_specification (the value in the entry, or V::default() inserted; shape of vstd\'s own Entry::or_insert contract)',
+        '<ModuleNode as Default>::default (derive(Default), the repository\'s own derive list kept): parent None, children empty, file_ids empty (std doc of derive(Default) / '
+        'Option, HashMap, Vec defaults)',
+        'derive(PartialEq) is field-wise equality (Verus `Structural`): derive lists of FileId, ModuleNodeId, WorkspaceId, ModuleVisibility kept verbatim from the repository',
+        'obeys_key_model for FileId, ModuleNodeId (derived Hash/Eq on a u32 newtype) and String (keys_ok())',
+        'String-keyed lookups by &str: vx_get_str_key (external_body, body = m.get(k)): found iff a key with that text is present (String: Borrow<str>; vstd has no model of it). '
+        'Distinctness of key TEXTS is not assumed: it is part of the proved invariant (tree_wf clause 5), kept by add (inserts only after a miss) and remove',
+        'string shims with the weakest true contracts (external_body, body = the very call): vx_split_dot [str::split(\'.\').collect(): parts are a function of the text (uninterp dot_parts), '
+        'at least one part, at most len+1 parts], vx_join_dot [uninterp join_dot of the parts], vx_ref_str_to_string [<&str>::to_string has the same text], vx_seps_to_dots '
+        '[str::replace([\'\\\\\', \'/\'], "."): uninterp seps_to_dots], vx_opt_string_as_str [Option<String>::as_deref keeps Some/None and the text]',
+        'callee shims (external_body): replace_module_path [regex moduleMap rewriting: uninterp function of the rule vector and the text], extract_module_path [uninterp function of '
+        'workspaces, module_patterns and the path - the only state the real fn reads], fuzzy_find_module [NO contract: result unconstrained], '
+        'AnalyzeContext::add_meta, LuaDocTagMeta::get_name_token, LuaNameToken::get_name_text [uninterp token / text]',
+        'opaque payload types: LuaType, LuaVersionCondition, LuaSemanticDeclId, Regex, Workspace (never inspected by the code under proof)',
+        'trait-impl methods LuaIndex::{remove, clear} are placed in the inherent impl block (the real calls `self.remove(file_id)` are statically dispatched on LuaModuleIndex)',
+        'DeclAnalyzerMetaSink: hand-written projection of DeclAnalyzer to the two members the slice of analyze_doc_tag_meta writes (is_meta, context); `analyzer.db.get_module_index[_mut]()` '
+        'becomes the explicit `index` parameter (rule analyzer-db-module-index, re-checks the accessors on every run); `file_id` (= analyzer.get_file_id()) is a parameter of the slice',
+        'module_wf is ASSUMED on entry of remove / add_* / find_* (precondition); it is PROVED to be established by new / clear and re-established by remove, add_module_by_module_path, '
+        'add_module_by_path, set_meta, set_module_visibility (via the slice) - so it holds in every state reachable through these writers. The other writers of the index '
+        '(get_module_mut handing out &mut ModuleInfo, set_module_version_conds, update_config toggling fuzzy_search) do not touch module_id / file_id / the maps: by reading '
+        '(callers of get_module_mut only write export_type, semantic_id, visible), not proved',
+    ],
+    'not_covered': [
+        'id_counter overflow: add_module_by_module_path requires id_counter + len(module_path) + 1 <= u32::MAX (`self.id_counter += 1` is unchecked; the counter is never reset, '
+        'not even by clear). After 2^32 node creations a release build would wrap to id 0 = the root id. Precondition, not proved unreachable',
+        'fuzzy_find_module (iterator adapters filter_map/min_by, strip_suffix, format!) is an opaque shim without contract: find_module is characterised exactly only when fuzzy search '
+        'is off (strict.requirePath) and for exact hits; with fuzzy search on, that no stale ModuleInfo can come back follows from C10.module.file-map + C10.module.name-table '
+        '(no id of the removed file left in either table) but is not stated as a postcondition of find_module',
+        'extract_module_path, replace_module_path, match_pattern, set_module_extract_patterns, set_module_replace_patterns, update_config, workspace functions: not under contract (regex / std::path)',
+        'get_module_mut / set_module_version_conds / get_module_infos / get_std_file_ids / is_main / is_std / is_library / get_*_file_ids / get_workspace_id: not extracted (plain reads of file_module_map)',
+        'DbIndex::remove delegating to LuaModuleIndex::remove is in unit c10_remove2 (there the module index is still an opaque shim): the integrator may replace that shim\'s '
+        'empty contract by the one proved here',
+        'the rest of analyze_doc_tag_meta (version conditions after the slice) and DeclAnalyzer::get_file_id',
+        'that ModuleNodeIds stay unobservable / that re-adding yields an isomorphic tree is only stated as C09.module.readd-sweeps-then-grows (sweep as by remove, then grow by the path), not as an isomorphism theorem',
+    ],
+    'samples': [
+        'remove(f): file_module_map\' = file_module_map - f; no node lists f; kept nodes keep parent / other files in order / kept children; removed nodes were not the root, had no other file '
+        'and only removed children; every kept non-root node has a file or a child; name table vectors = old vectors minus f, emptied ones dropped; module_wf kept',
+        'add_module_by_module_path(f, "a.b.c", ws): Some; resolve(nodes\', root, dot_parts(path)) == Some(file_module_map\'[f].module_id); that node lists f (no duplicates); '
+        'ModuleInfo fresh (is_meta false); other entries untouched; module_wf kept',
+        'clear(): nodes = {root: no parent / child / file}, both tables empty, module_wf',
+        'exact_find_module(parts): Some(info of the file picked among the files of resolve(parts)) / None iff the path does not resolve or its node lists no file',
+        'lemma_removed_is_unresolvable: path resolved to a node listing only f  ==>  after remove(f) find_spec(path) is None',
+        'analyze_doc_tag_meta slice: file has a module entry on entry ==> is_meta_file(file_id) at the end of the slice, on every branch (incl. `---@meta some.module` re-registration)',
+    ],
 }
